@@ -1329,7 +1329,7 @@ Qed.
 Theorem step_ginv : forall s o (bd : key -> Z), g_inv s bd -> g_inv (fst (step s o)) (bd_step s bd o).
 Proof.
   intros s o bd G. pose proof G as [P ND OK].
-  destruct o as [d|c|n w f|n cbp mbf|face n cbp mbf nonce life sent|n w f tok| |]; simpl.
+  destruct o as [d|c|n w f|n cbp mbf|face n cbp mbf nonce life sent|n w f tok| | |u]; simpl.
   - (* time passes *)
     split.
     + apply (pinv_same s _ P); try reflexivity. destruct (pi_cs s P). split; assumption.
@@ -1353,6 +1353,9 @@ Proof.
     apply (g_inv_same s _ bd G); [|rewrite A1; exact ND|unfold E; rewrite A1; reflexivity|exact A2|exact A3].
     apply (pinv_same s _ P); try assumption.
     eapply frame_inv; [apply (pi_cs s P)|apply fr_dnl_sweep; apply (ci_tree _ (pi_cs s P))].
+  - unfold mgmt_cap. destruct (max_int <? u)%N; [exact G|].
+    apply (g_inv_same s _ bd G); try reflexivity; [|exact ND]. apply (pinv_same s _ P); try reflexivity.
+    destruct (pi_cs s P). split; assumption.
 Qed.
 
 Lemma init_ginv : forall t0 c sv ad life (bd : key -> Z), g_inv (init t0 c sv ad life) bd.
